@@ -258,13 +258,15 @@ static void run_case(uint64_t idx, vr::Ctx& ctx)
         ctx.poll_reports();
     };
     ex::Stats st;
-    auto stopCheck = [&](const ex::Execution&) { if (ctx.case_violations >= 3) st.stop = true; };
+    auto stopCheck = [&](const ex::Execution&) { if (ctx.case_violations >= 3 || ctx.stopping()) st.stop = true; };
     ex::explore(sc, c.bound, st, 3000000, stopCheck, c.shard, c.nshards);
     ctx.count("executions", st.executions);
     ctx.count("transitions", st.transitions);
     ctx.maxc("max_points_per_execution", st.maxPoints);
     if (st.budgetHit)
         ctx.count("budget_hit", 1);
+    if (st.stop && ctx.case_violations < 3)
+        ctx.count("incomplete_cases", 1); // wound up at the run's deadline
     ctx.sample("{\"scenario\":" + vr::jstr(name) + ",\"executions\":" + std::to_string(st.executions) + ",\"max_points\":" + std::to_string(st.maxPoints) + "}");
 }
 
